@@ -1,7 +1,9 @@
 //! Gated harness systems for the `asyncd` engine: the same self-identifying accessor / data as
 //! `sys.rs` (F logged in `fetch`, D when the data value drops), but `run` waits on a per-system
 //! gate that only the test thread (or its helper) opens. Every wait is bounded by a watchdog so
-//! that no thread is ever left blocked.
+//! that no thread is ever left blocked. A system can be made to panic in `fetch` or inside `run`
+//! of one particular run (`Behav::panic_mode` / `panic_only_run`); its setup hook is logged and
+//! asks the library for a default-provided resource (`Read<Sr<K>>::setup`).
 use crate::build::{new_builder, Builder, Pool};
 use crate::gen::Op;
 use crate::sys::*;
@@ -142,6 +144,41 @@ pub fn thread_state(tid: u64) -> Option<char> {
     s[i + 1..].trim_start().chars().next()
 }
 
+/// the resources the setup hooks ask the library to provide: system `tag` uses `Sr<tag % NSR>`
+/// through a default-providing accessor (`Read<Sr<K>>`), so `setup` must create it when absent
+/// and must leave it alone when present
+#[derive(Debug, Clone, PartialEq)]
+pub struct Sr<const K: usize>(pub u64);
+impl<const K: usize> Default for Sr<K> {
+    fn default() -> Self {
+        Sr(sr_default(K))
+    }
+}
+pub const NSR: usize = 6;
+pub fn sr_default(k: usize) -> u64 {
+    7000 + k as u64
+}
+/// what the world holds of `Sr<0..NSR>`: 0 absent, value + 1 otherwise
+pub fn sr_probe(w: &World) -> Vec<usize> {
+    (0..NSR).map(|k| by_ty!(k, K => w.try_fetch::<Sr<K>>().map(|g| g.0 as usize + 1).unwrap_or(0))).collect()
+}
+/// `plan[k]`: 0 leave alone, 1 remove, v + 2 set to v (inserting if absent); returns what was done
+pub fn sr_mutate(w: &mut World, plan: &[usize]) {
+    for (k, p) in plan.iter().enumerate().take(NSR) {
+        match *p {
+            0 => {}
+            1 => {
+                by_ty!(k, K => {
+                    let _ = w.remove::<Sr<K>>();
+                });
+            }
+            v => {
+                by_ty!(k, K => w.insert(Sr::<K>((v - 2) as u64)));
+            }
+        }
+    }
+}
+
 pub struct GSys {
     pub acc: Acc,
     pub time: RunningTime,
@@ -155,6 +192,15 @@ impl<'a> System<'a> for GSys {
         let run = b.runs.fetch_add(1, SeqCst);
         let n = sh.inside.fetch_add(1, SeqCst) + 1;
         sh.max_inside.fetch_max(n, SeqCst);
+        struct Leave<'s>(&'s Shared, bool);
+        impl Drop for Leave<'_> {
+            fn drop(&mut self) {
+                if !self.1 {
+                    self.0.inside.fetch_sub(1, SeqCst);
+                }
+            }
+        }
+        let mut leave = Leave(&sh, false);
         // held inside `run`, i.e. inside the logged F…D window, until the gate is open
         self.gates.pass(d.tag, run);
         let hold = b.hold_us.load(SeqCst);
@@ -164,12 +210,24 @@ impl<'a> System<'a> for GSys {
                 std::thread::yield_now();
             }
         }
+        if b.panic_mode.load(SeqCst) == 1 && b.panic_applies(run) {
+            // unwinding drops `d`, which logs P
+            panic!("harness panic (run) {} #{}", d.tag, run);
+        }
         sh.inside.fetch_sub(1, SeqCst);
+        leave.1 = true;
         let tag = d.tag;
         drop(d); // logs D
         if let Some(c) = self.gates.done.get(tag) {
             c.fetch_add(1, SeqCst);
         }
+    }
+    fn setup(&mut self, world: &mut World) {
+        // the hook itself is the observable; then what the default `System::setup` does (the
+        // system data's setup), then the library's own provider for a `Default` resource
+        self.acc.shared.push('S', vec![self.acc.tag]);
+        <Data as DynamicSystemData>::setup(&self.acc, world);
+        by_ty!(self.acc.tag % NSR, K => <Read<'_, Sr<K>> as SystemData>::setup(world));
     }
     fn running_time(&self) -> RunningTime {
         self.time
@@ -177,6 +235,22 @@ impl<'a> System<'a> for GSys {
     fn accessor<'b>(&'b self) -> AccessorCow<'a, 'b, Self> {
         AccessorCow::Ref(&self.acc)
     }
+}
+
+/// a pool whose `panic_handler` counts the jobs that ended in a panic (without a handler rayon
+/// aborts the process when a spawned job panics); the handler runs after the job's closure — and
+/// with it the dispatcher's sender — has been dropped by the unwinding
+#[cfg(feature = "parallel")]
+pub fn make_counting_pool(n: usize, panics: Arc<AtomicU64>) -> Pool {
+    Arc::new(
+        rayon::ThreadPoolBuilder::new()
+            .num_threads(n)
+            .panic_handler(move |_| {
+                panics.fetch_add(1, SeqCst);
+            })
+            .build()
+            .unwrap(),
+    )
 }
 
 /// registers the (flat) registration sequence with gated systems; batches are not supported by
